@@ -359,8 +359,8 @@ def cross_check(spec, n=60, seed=0, max_tries=4000, max_seconds=60):
     rng = random.Random(seed)
     cfgs = list(configurations(spec))
     done, failures, tries = 0, [], 0
-    t_end = _time.time() + max_seconds
-    while done < n and tries < max_tries and _time.time() < t_end:
+    t_end = None  # the clock starts after the first evaluation (which pays for importing the library)
+    while done < n and tries < max_tries and (t_end is None or _time.time() < t_end):
         tries += 1
         cfg = rng.choice(cfgs)
         try:
@@ -371,6 +371,8 @@ def cross_check(spec, n=60, seed=0, max_tries=4000, max_seconds=60):
             res = check(spec, args)
         except ValueError as e:
             return dict(evaluated=0, failures=[], skipped=str(e))
+        if t_end is None:
+            t_end = _time.time() + max_seconds
         if res and res[0][1] is None:
             continue
         done += 1
